@@ -32,7 +32,7 @@ def tempo(rng):
 def tree(rng, depth):
     if depth == 0 or rng.random() < 0.3:
         extra = sorted(set(rng.randint(1, 4) for _ in range(rng.choice([0, 0, 1, 2]))))
-        return ["L", rng.randint(0, 5) * U, rng.choice([0, 0, 1, 2]), tempo(rng), [[n, rng.choice([0, 1, 2, 3, 3, -1, -1, -2, -3, -4, -5, -6, -7])] for n in extra]]
+        return ["L", rng.randint(0, 5) * U, rng.choice([0, 0, 1, 2]), tempo(rng), [[n, rng.choice([0, 1, 2, 3, 3, -1, -1, -2, -3, -4, -5, -6, -7] + ([-8] if rng.random() < 0.03 else []))] for n in extra]]
     return [rng.choice("SSP"), rng.choice([0, 0, 1, 2]), tempo(rng)] + [tree(rng, depth - 1) for _ in range(rng.choice([0, 1, 2, 3]))]
 
 
@@ -88,7 +88,11 @@ def mutate(rng, t):
                 n2[4] = n[4][1:]
             elif k == "tempo-bpm":
                 idx = 3 if n[0] == "L" else 2
-                n2[idx] = [n[idx][0] + 7] + n[idx][1:]
+                if n[idx][0] < 1000 and rng.random() < 0.4:
+                    # a small difference: a few hundredths of a bpm (codes from 1000 on are thousandths of a bpm)
+                    n2[idx] = [n[idx][0] * 1000 + rng.choice([10, 40, 500])] + n[idx][1:]
+                else:
+                    n2[idx] = [n[idx][0] + 7] + n[idx][1:]
             elif k == "tempo-rest":
                 idx = 3 if n[0] == "L" else 2
                 if len(n[idx]) < 2:
@@ -130,13 +134,28 @@ def model_case(case):
     return case[:3]
 
 
+def has_nan(case):
+    """a parameter value that is not equal to itself (code -8 = float('nan')): finding F14"""
+    return "-8" in sx.show(case[1]).replace("(", " ").replace(")", " ").split() or "-8" in sx.show(case[2]).replace("(", " ").replace(")", " ").split()
+
+
 def compare(case, mo, io):
+    m = compare1(case, mo, io)
+    return ("[F14] " + m) if m and has_nan(case) else m
+
+
+def compare1(case, mo, io):
     if is_err(io):
         return f"comparison raised {io[1]}"
     return None if mo[:5] == io[:5] else f"model {sx.show(mo[:5])} impl {sx.show(io[:5])}"
 
 
 def oracle(case, io, mo):
+    m = oracle1(case, io, mo)
+    return ("[F14] " + m) if m and has_nan(case) and not m.startswith("[F1]") else m
+
+
+def oracle1(case, io, mo):
     if is_err(io):
         return f"comparison raised {io[1]} instead of returning a bool"
     kind = case[3]
@@ -172,7 +191,11 @@ def first_bpm_only(t):
 
 
 def known(f, case, msg, io):
-    return f.get("id") == "F1" and (msg or "").startswith("[F1]")
+    return (f.get("id") == "F1" and (msg or "").startswith("[F1]")) or (f.get("id") == "F14" and (msg or "").startswith("[F14]"))
+
+
+def known_dis(f, case, msg, io, mo=None):
+    return f.get("id") == "F14" and (msg or "").startswith("[F14]")
 
 
 def nontrivial(case, io):
